@@ -94,7 +94,7 @@ func VerifC19Bad() {
 	goodLine := c19line(23, good)
 	var bad []byte
 	hasNewline := true
-	switch zz.Choice("mutation", 5) {
+	switch zz.Choice("mutation", 7) {
 	case 0: // odd number of hex characters
 		bad = append([]byte("5 "), c19hex(zz.U8("a")&0x0F), c19hex(zz.U8("b")&0x0F), c19hex(zz.U8("c")&0x0F), '\n')
 	case 1: // a non-hex character at a symbolic position of the payload
@@ -109,6 +109,14 @@ func VerifC19Bad() {
 		bad = append([]byte("5"), c19hex(zz.U8("a")&0x0F), c19hex(zz.U8("b")&0x0F), '\n')
 	case 3: // empty payload
 		bad = []byte("5 \n")
+	case 5: // a non-digit character inside the time stamp (symbolic position)
+		ts := []byte("123")
+		x := zz.U8("nondigit")
+		zz.Assume(x >= 'g' && x <= 'z')
+		ts[zz.Choice("tspos", 3)] = x
+		bad = append(append(ts, ' '), c19hex(zz.U8("a")&0x0F), c19hex(zz.U8("b")&0x0F), '\n')
+	case 6: // a second separator inside the payload
+		bad = append([]byte("5 "), c19hex(zz.U8("a")&0x0F), c19hex(zz.U8("b")&0x0F), ' ', c19hex(zz.U8("c")&0x0F), c19hex(zz.U8("d")&0x0F), '\n')
 	case 4: // missing terminator before the end of the stream
 		bad = append([]byte("5 "), c19hex(zz.U8("a")&0x0F), c19hex(zz.U8("b")&0x0F))
 		hasNewline = false
